@@ -38,10 +38,9 @@ TRUSTED_BASE = [
 ASSUMPTIONS = [
     'overlapping requests: a request is cut at its driver call into three atomic segments (start / driver call / finish); the '
     'harness driver suspends before and after the real call and the scheduler runs one segment at a time, so every '
-    'interleaving of segments is reachable and logged; the theorem C18_overlap_cache_invariant holds for schedules in '
-    'which the clock does not advance while a request is suspended and the removal of a DELETE follows its cache '
-    'invalidation without a suspension in between (sched_okb, evaluated on every schedule run; the generated schedules keep '
-    'the two adjacent: with a driver that suspends between them /repo has the race of notes/C18-remove-race.json)',
+    'interleaving of segments is reachable and logged (including a DELETE suspended between its cache invalidation and the '
+    'removal); the theorem C18_overlap_cache_invariant holds for schedules in which the clock does not advance while a '
+    'request is suspended and request identifiers are not reused while in flight (sched_okb, evaluated on every schedule run)',
     'the clock never goes backwards (AdvanceClock takes a natural number); with a backward jump of more than the cache '
     'age a cached by-timestamp answer can become stale',
     'samples are only ever written at the current time (save_sample is only called with now_ms) and a port\'s type and '
@@ -772,7 +771,8 @@ def gen_overlap(rng, min_age, now0, focus, store, pool, tspool):
         asked = extra[:1] + [t] + extra[1:]
         a = max(0, smp[1] - rng.choice([0, 0, 1, 1000]))
         parts = [byts(asked), delete(a, smp[1] + 1 + rng.choice([0, 0, 1, 500]))]
-        schedule = rng.choice([[0, 0, 1, 1, 1, 0], [0, 0, 1, 1, 0, 1], [0, 1, 1, 0, 1, 0], [1, 0, 1, 0, 1, 0]])
+        schedule = rng.choice([[0, 0, 1, 1, 1, 0], [0, 0, 1, 1, 0, 1], [0, 1, 1, 0, 1, 0], [1, 0, 1, 0, 1, 0],
+                               [1, 0, 0, 0, 1, 1], [1, 0, 0, 1, 0, 1], [1, 0, 0, 0, 1, 1]])
         if rng.random() < 0.3:
             parts.append({'op': 'change', 'port': focus, 'value': change_value()})
             schedule = list(schedule)
@@ -803,21 +803,6 @@ def gen_overlap(rng, min_age, now0, focus, store, pool, tspool):
         after = [byts(asked[:4])] if asked else []
         if rng.random() < 0.5:
             after.append({'op': 'get', 'port': focus, 'query': {'from': '0'}})
-    if not os.environ.get('VERIF_C18_DELETE_RACE'):
-        # the cache invalidation of remove_samples and the removal itself are adjacent (no suspension between them in the
-        # drivers that exist); a request scheduled in between hits the race described in notes/C18.md
-        fixed, seen = [], set()
-        for i in schedule:
-            if parts[i]['op'] == 'delete':
-                if i in seen:
-                    continue
-                seen.add(i)
-                fixed += [i, i]
-            else:
-                fixed.append(i)
-        for i in seen:
-            fixed.append(i)
-        schedule = fixed
     return [{'op': 'overlap', 'parts': parts, 'schedule': schedule}] + after
 
 
@@ -886,6 +871,8 @@ def classify(case, obs, step):
         key = {'request': req['op'], 'aspect': 'state'}
     if o['event'][0] != 'seq':
         key['overlapping'] = True
+    elif any(x['event'][0] != 'seq' for x in obs[:step]):
+        key['after_overlap'] = True      # a request that runs alone, after requests overlapped earlier in the sequence
     return key
 
 
@@ -973,9 +960,8 @@ def run_batch(ctx, res, impl, cases, name, labels=None, do_shrink=True):
     if outside:
         res['distribution']['schedules outside the premise of the interleaving theorem (sched_okb = false)'] = \
             res['distribution'].get('schedules outside the premise of the interleaving theorem (sched_okb = false)', 0) + len(outside)
-        if not os.environ.get('VERIF_C18_DELETE_RACE'):
-            res['tie_failures'].append({'note': 'the harness ran a schedule outside the premise of C18_overlap_cache_invariant',
-                                        'case': cases[outside[0]]})
+        res['tie_failures'].append({'note': 'the harness ran a schedule outside the premise of C18_overlap_cache_invariant',
+                                    'case': cases[outside[0]]})
     res['extra']['impl_and_coq_wall_s'] = round(res['extra'].get('impl_and_coq_wall_s', 0) + _time.time() - t0, 2)
     if err:
         res['tie_failures'].append(err)
